@@ -13,6 +13,7 @@ rm -rf /tmp/.reftable_check.$$
 python3 tools/gen_src.py /repo coq/gen || true
 python3 tools/gen_mut.py /repo coq/gen || true
 python3 tools/gen_drv.py /repo coq/gen || true
+python3 tools/gen_utils.py /repo coq/gen || true
 # the harness first: the witness seeds of Properties/C12s.v come from a census of the implementation
 python3 - <<'PY'
 import sys
